@@ -125,6 +125,34 @@ theorem accept_generic_sound (ar : String → Nat) (pos : Pos) (hp : pos.require
     cases this with | cons h1 _ => exact ⟨b, h1⟩
   · exact ⟨b, (bindIn_sound ar r s b hd hr hg hw hb).2⟩
 
+/-- **completeness and minimality** (`bind_complete`): if *some* instantiation `σ` of the generic parameters makes a
+fully known data type `s` (no function type, no generic parameter; `unknown` allowed) assignable to `r`, then
+`bind_in_assignment` succeeds, and the binding it returns is the least one: every parameter it binds is bound by `σ`
+to a type above (`Sub`) the one found — the inferred binding is the least common type of what the parameter met. -/
+theorem bind_complete (σ : Bnd) (r s : Ty) (hd : data s = true) (h : Sub s (subst σ r)) :
+    ∃ b, bindIn r s = some b ∧ ble b σ := by
+  obtain ⟨b, hb, h1, _⟩ := bindIn_complete σ r s hd h
+  exact ⟨b, hb, bleM_ble h1⟩
+
+/-- **argument, field and variant-payload positions accept exactly the assignable**: a fully known data value is
+accepted where `r` is required iff some instantiation of the receiving declaration's generic parameters makes its type
+assignable to `r` -/
+theorem accept_generic_iff (ar : String → Nat) (pos : Pos) (hp : pos.requiresEmpty = false) (r s : Ty)
+    (hdr : declarable r = true) (hr : wfTy ar r = true) (hd : data s = true) (hw : wfTy ar s = true) :
+    accepts pos r s = true ↔ ∃ σ, Sub s (subst σ r) := by
+  constructor
+  · exact accept_generic_sound ar pos hp r s hdr hr (data_ground s hd) hw
+  · rintro ⟨σ, h⟩
+    obtain ⟨b, hb, h1, h2⟩ := bindIn_complete σ r s hd h
+    cases pos <;> simp [Pos.requiresEmpty] at hp
+    · -- argument: `XFuncSpec::bind` of a one-parameter function
+      obtain ⟨res, hm, _, _⟩ := mix_complete σ [] b (bleM_nil σ) h1 bdata_nil h2
+      simp [accepts, specBind, bindZip, hb, hm]
+    · -- field: `XCompoundSpec::bind` of a one-field struct
+      obtain ⟨res, hm, _, _⟩ := mix_complete σ [] b (bleM_nil σ) h1 bdata_nil h2
+      simp [accepts, compoundBind, compoundBindLoop, hb, hm]
+    · simp [accepts, hb]
+
 /-- non-vacuity of `specBind_sound`: `fn f<T>(a: T, b: Optional<T>)` called with `(Sequence<unknown>, Optional<Sequence<int>>)`
 binds `T := Sequence<int>` -/
 example : specBind { gens := some ["T"], ps := [.generic "T", .native "Optional" [.generic "T"]], nreq := 2, ret := .int }
